@@ -429,6 +429,11 @@ class Coder(object):
                 state.most_recent_bitmap_is_for_reuse = False
                 state.bitmap_definition_state = BITMAP_WAITING_FOR_BIT
                 state.n_031031 = 0
+                # The bitmap may be listed directly after the operator, in which case
+                # this descriptor is already its first bit
+                if descriptor.id == 31031:
+                    state.bitmap_definition_state = BITMAP_BIT_COUNTING
+                    state.n_031031 = 1
 
         elif state.bitmap_definition_state == BITMAP_WAITING_FOR_BIT:
             if descriptor.id == 31031:
